@@ -154,7 +154,7 @@ theorem InvG.publishOne {y : Sys} (h : InvG y) : InvG (CV.Stream.publishOne y) :
       obtain ⟨c, hc, hm, -⟩ := publishOne_mem hq c' hc'
       rw [hm]; exact h.exact c hc
     · intro c' hc' ho
-      obtain ⟨c, hc, hm, hk, -, -, -, hs, hi⟩ := publishOne_mem hq c' hc'
+      obtain ⟨c, hc, hm, hk, -, -, -, hs, hi, -⟩ := publishOne_mem hq c' hc'
       have hop := hs ho
       have hat : attached c = true := by simp [attached, hop]
       have := h.sim c hc hop
